@@ -604,6 +604,18 @@ M('C13', '_update_env_inds with guard clause (equivalent)', MC,
         return self.i0, self.i0 + 1""", None, 'silent')
 
 # ---------------------------------------------------------------- C09
+M('C09', 'set_svd_theta stores VH as form A', MPS,
+  "self.set_B(i + 1, VH.itranspose(self._B_labels), form='B')", "self.set_B(i + 1, VH.itranspose(self._B_labels), form='A')",
+  'MPS-form-flow')
+M('C09', 'spatial_inversion keeps the forms in place', MPS,
+  "self.form = [(f if f is None else (f[1], f[0])) for f in self.form[::-1]]",
+  "self.form = [(f if f is None else (f[1], f[0])) for f in self.form]", 'MPS-sided')
+M('C09', 'spatial_inversion does not exchange vL and vR', MPS,
+  "B.replace_labels(['vL', 'vR'], ['vR', 'vL']).transpose(self._B_labels)", "B.transpose(self._B_labels)",
+  'MPS-sided')
+M('C09', 'apply_local_op puts the JW string on vR', MPS,
+  "_ = self.apply_JW_string_left_of_virt_leg(self._B[i], 'vL', i)", "_ = self.apply_JW_string_left_of_virt_leg(self._B[i], 'vR', i)",
+  'MPS-norm')
 M('C09', 'get_B scales the left leg by the change of the right exponent', MPS,
   "self._scale_axis_B(B, self.get_SL(i), new_form[0] - old_form[0], 'vL', cutoff)",
   "self._scale_axis_B(B, self.get_SL(i), new_form[1] - old_form[1], 'vL', cutoff)", 'MPS-form-flow')
